@@ -721,6 +721,50 @@ def r4_bounds(repo, report):
               why=(bad[0][0] + ": " + str(bad[0][1])[:200]) if bad else "")
 
 
+def _chunks_are_a_partition(repo, report):
+    """The pigeonhole argument: k errors cannot hit all k+1 consecutive chunks of the adapter, so an occurrence contains one of
+    them intact.  That needs the set kmer_chunks returns to be ALL pieces of one partition of the sequence into `chunks`
+    consecutive pieces (of almost equal size) - a piece left out, e.g. because it is contained in a longer one, may be the only
+    intact one.  kmer_chunks is a closed function; it is folded for every sequence over {A, C} up to length 8 (repeats
+    included) and every chunk count up to 4."""
+    import itertools
+    from .. import constfold
+    fn = repo.func("kmer_heuristic", "kmer_chunks")
+    if fn is None:
+        raise Unrecognised("kmer_heuristic.kmer_chunks not found")
+    ps = params(fn)
+    bad, n = [], 0
+    try:
+        for length in range(1, 9):
+            for tup in itertools.product("AC", repeat=length):
+                seq = "".join(tup)
+                for chunks in range(1, min(4, length) + 1):
+                    got = constfold.fold_function(fn, {ps[0]: seq, ps[1]: chunks})
+                    n += 1
+                    size, rem = divmod(length, chunks)
+                    okp = False
+                    for big in itertools.combinations(range(chunks), rem):
+                        sizes = [size + 1 if i in big else size for i in range(chunks)]
+                        off, pieces = 0, set()
+                        for sz in sizes:
+                            pieces.add(seq[off:off + sz]); off += sz
+                        if set(got) == pieces:
+                            okp = True
+                            break
+                    if not okp:
+                        bad.append({"sequence": seq, "chunks": chunks, "returned": sorted(got)})
+                        if len(bad) >= 3:
+                            raise StopIteration
+    except StopIteration:
+        pass
+    except constfold.NotConstant as e:
+        report.unrecognised("C07.R3", "kmer_chunks", f"not a closed function ({e})", repo.loc(fn))
+        return
+    report.ob("C07.R3", "kmer_chunks returns every piece of a partition", not bad, facts={"cases": n, "not_a_partition": bad}, cases=n, loc=repo.loc(fn),
+              expected="the set of all pieces of a split of the sequence into `chunks` consecutive pieces whose sizes differ by at most one",
+              why=(f"for {bad[0]['sequence']!r} and {bad[0]['chunks']} chunks the function returns {bad[0]['returned']}, which is not the set of pieces of any such split: an occurrence whose only error-free piece is missing from the set is rejected by the prefilter" if bad else ""))
+
+
 def _finder_is_the_adapters_own(repo, report):
     """Each adapter searches with the prefilter built for ITS configuration: self.kmer_finder is the result of
     self._kmer_finder().  If finders are shared through a table, the key must contain everything the builders read from
@@ -816,6 +860,7 @@ def r5_word(repo, report):
     _no_kmer_dropped(repo, report)
     _kmer_sets_reach_finder_unchanged(repo, report)
     _finder_is_the_adapters_own(repo, report)
+    _chunks_are_a_partition(repo, report)
     c, fn = repo.need_method("KmerFinder", "__cinit__")
     inner = [n for n in ast.walk(fn) if isinstance(n, ast.While)]
     if len(inner) < 2:
